@@ -25,6 +25,10 @@ package main
 //   aftercall:F         the construct is reached only after a call of F in the
 //                       same function returned a nil error (F validates what
 //                       the construct relies on)
+//   lenmeasure:F        the widths F returns and the widths the construct's function
+//                       subtracts from them are both byte lengths (the builtin len):
+//                       a producer and a consumer of column widths that measured
+//                       differently (runes against bytes) would make the padding negative
 //   rettype:F:T         the asserted value is result 0 of F, the assertion is
 //                       reached only when result 1 is true, and every return
 //                       of F with result 1 == true returns a T
@@ -58,7 +62,7 @@ func instrsAt(f *ssa.Function, pos token.Pos) []ssa.Instruction {
 			return
 		}
 		switch in.(type) {
-		case *ssa.IndexAddr, *ssa.Index, *ssa.Slice, *ssa.TypeAssert, *ssa.Lookup:
+		case *ssa.IndexAddr, *ssa.Index, *ssa.Slice, *ssa.TypeAssert, *ssa.Lookup, *ssa.Panic:
 			out = append(out, in)
 		}
 	})
@@ -104,6 +108,11 @@ func (c *Ctx) anchorHolds(row *TableRow, o *Ob, pos token.Pos) (bool, string) {
 					return false, "malformed anchor " + a
 				}
 				ok, why = c.anchorAfterCall(in, parts[1])
+			case "lenmeasure":
+				if len(parts) != 2 {
+					return false, "malformed anchor " + a
+				}
+				ok, why = c.anchorLenMeasure(in, parts[1])
 			case "peek":
 				ok, why = c.anchorPeek(in)
 			case "rettype":
@@ -748,8 +757,244 @@ func (c *Ctx) anchorAfterCall(in ssa.Instruction, fname string) (bool, string) {
 			return true, bo.Op == token.EQL
 		})
 		if checked {
+			// an unchecked type assertion relies on more than "F did not fail": F must have found the
+			// same value to be of that type on every path on which it succeeds
+			if ta, isTA := in.(*ssa.TypeAssert); isTA && !ta.CommaOk {
+				if ok, why := validatesType(f, ta, g, call); !ok {
+					return false, why
+				}
+			}
 			return true, ""
 		}
 	}
 	return false, "no call of " + fname + " with its error tested dominates the construct"
+}
+
+// accessPath: a canonical spelling of where a value is read from, relative to the parameters of its function
+// (p0.Select.Val[0]); "" when it is not a chain of field reads and constant indexes from a parameter.
+func accessPath(v ssa.Value, depth int) string {
+	if depth > 8 {
+		return ""
+	}
+	switch x := v.(type) {
+	case *ssa.Parameter:
+		for i, p := range x.Parent().Params {
+			if p == x {
+				return fmt.Sprintf("p%d", i)
+			}
+		}
+	case *ssa.UnOp:
+		if x.Op != token.MUL {
+			return ""
+		}
+		switch a := x.X.(type) {
+		case *ssa.FieldAddr:
+			base := accessPath(a.X, depth+1)
+			if base == "" || faField(a) == nil {
+				return ""
+			}
+			return base + "." + faField(a).Name()
+		case *ssa.IndexAddr:
+			base := accessPath(a.X, depth+1)
+			k, ok := constIntOf(a.Index)
+			if base == "" || !ok {
+				return ""
+			}
+			return fmt.Sprintf("%s[%d]", base, k)
+		}
+	case *ssa.FieldAddr:
+		base := accessPath(x.X, depth+1)
+		if base == "" || faField(x) == nil {
+			return ""
+		}
+		return base + ".&" + faField(x).Name()
+	}
+	return ""
+}
+
+// validatesType: g (called by f on the same receiver) returns a nil error only on paths that passed a successful
+// assertion of the value with the same access path to the asserted type.
+func validatesType(f *ssa.Function, ta *ssa.TypeAssert, g *ssa.Function, call *ssa.Call) (bool, string) {
+	want := accessPath(ta.X, 0)
+	if want == "" || !strings.HasPrefix(want, "p0") {
+		return false, "the asserted value is not a field path from the receiver; what " + fnName(g) + " validated cannot be matched to it"
+	}
+	if len(call.Call.Args) == 0 || len(f.Params) == 0 || call.Call.Args[0] != ssa.Value(f.Params[0]) || len(g.Params) == 0 {
+		return false, fnName(g) + " is not called on the same receiver"
+	}
+	ei := errResultIndex(g.Signature)
+	// blocks of g entered only after the same path was found to be of the asserted type
+	var okBlocks []*ssa.BasicBlock
+	eachInstr(g, func(b *ssa.BasicBlock, i int, in ssa.Instruction) {
+		t2, ok := in.(*ssa.TypeAssert)
+		if !ok || !t2.CommaOk || !types.Identical(t2.AssertedType, ta.AssertedType) || accessPath(t2.X, 0) != want {
+			return
+		}
+		for _, r := range *t2.Referrers() {
+			ex, ok := r.(*ssa.Extract)
+			if !ok || ex.Index != 1 {
+				continue
+			}
+			for _, r2 := range *ex.Referrers() {
+				if iff, ok := r2.(*ssa.If); ok {
+					okBlocks = append(okBlocks, iff.Block().Succs[0])
+				}
+			}
+		}
+	})
+	if len(okBlocks) == 0 {
+		return false, fnName(g) + " never tests " + want + " for " + typeShort(ta.AssertedType)
+	}
+	// cases the caller has excluded before the call: a boolean result of a helper called on the same receiver,
+	// which f tests and leaves on (so it is false when the assertion runs); a success return of g that lies under
+	// the true side of the same helper result is not a path that leads to the assertion
+	type fact struct {
+		h   *ssa.Function
+		idx int
+	}
+	excluded := map[fact]bool{}
+	helperBool := func(fn *ssa.Function, cond ssa.Value) (fact, bool) {
+		ex, ok := cond.(*ssa.Extract)
+		if !ok {
+			return fact{}, false
+		}
+		hc, ok := ex.Tuple.(*ssa.Call)
+		if !ok || hc.Call.StaticCallee() == nil || len(hc.Call.Args) == 0 || len(fn.Params) == 0 || hc.Call.Args[0] != ssa.Value(fn.Params[0]) {
+			return fact{}, false
+		}
+		return fact{hc.Call.StaticCallee(), ex.Index}, true
+	}
+	for _, b := range f.Blocks {
+		cond, t, _ := condBranch(b)
+		if cond == nil || !b.Dominates(ta.Block()) {
+			continue
+		}
+		if fc, ok := helperBool(f, cond); ok && !blockReaches(t, ta.Block()) && t != ta.Block() {
+			excluded[fc] = true
+		}
+	}
+	underExcluded := func(rb *ssa.BasicBlock) bool {
+		return guardedBy(rb, func(cond ssa.Value) (bool, bool) {
+			fc, ok := helperBool(g, cond)
+			if !ok || !excluded[fc] {
+				return false, false
+			}
+			return true, true
+		})
+	}
+	for _, r := range returnsOf(g) {
+		if ei >= len(r.Results) || !isNilConst(r.Results[ei]) {
+			continue
+		}
+		if underExcluded(r.Block()) {
+			continue
+		}
+		dominated := false
+		for _, ob := range okBlocks {
+			if ob.Dominates(r.Block()) && len(ob.Preds) == 1 {
+				dominated = true
+			}
+		}
+		if !dominated {
+			return false, fnName(g) + " can succeed on a path that did not find " + want + " to be a " + typeShort(ta.AssertedType) + " (return at " + g.Prog.Fset.Position(r.Pos()).String() + "): the unchecked assertion that follows the call is a Go panic for such a value"
+		}
+	}
+	return true, ""
+}
+
+// ---- lenmeasure
+
+func isLenCall(v ssa.Value) bool {
+	for d := 0; d < 3; d++ {
+		switch x := v.(type) {
+		case *ssa.Call:
+			bi, ok := x.Call.Value.(*ssa.Builtin)
+			return ok && bi.Name() == "len"
+		case *ssa.BinOp:
+			// len(x) + constant
+			if _, ok := x.Y.(*ssa.Const); ok && (x.Op == token.ADD || x.Op == token.SUB) {
+				v = x.X
+				continue
+			}
+			return false
+		default:
+			return false
+		}
+	}
+	return false
+}
+
+func (c *Ctx) anchorLenMeasure(in ssa.Instruction, fname string) (bool, string) {
+	g := c.fn(fname)
+	if g == nil {
+		return false, fname + " not found"
+	}
+	// every element appended to a slice of ints in the producer is a byte length
+	nApp := 0
+	bad := ""
+	eachInstr(g, func(b *ssa.BasicBlock, i int, x ssa.Instruction) {
+		call, ok := x.(*ssa.Call)
+		if !ok {
+			return
+		}
+		bi, ok := call.Call.Value.(*ssa.Builtin)
+		if !ok || bi.Name() != "append" || len(call.Call.Args) < 2 {
+			return
+		}
+		sl, ok := call.Call.Args[1].(*ssa.Slice)
+		if !ok {
+			return
+		}
+		al, ok := sl.X.(*ssa.Alloc)
+		if !ok {
+			return
+		}
+		for _, r := range *al.Referrers() {
+			ia, ok := r.(*ssa.IndexAddr)
+			if !ok {
+				continue
+			}
+			for _, r2 := range *ia.Referrers() {
+				st, ok := r2.(*ssa.Store)
+				if !ok {
+					continue
+				}
+				nApp++
+				if k, isConst := st.Val.(*ssa.Const); isConst && k.Value != nil {
+					continue
+				}
+				if !isLenCall(st.Val) {
+					bad = "a width appended by " + fname + " is not a byte length (len): " + st.Val.String()
+				}
+			}
+		}
+	})
+	if nApp == 0 {
+		return false, fname + " appends no widths"
+	}
+	if bad != "" {
+		return false, bad
+	}
+	// the consumer subtracts byte lengths
+	f := in.Parent()
+	nSub := 0
+	okSub := true
+	eachInstr(f, func(b *ssa.BasicBlock, i int, x ssa.Instruction) {
+		bo, ok := x.(*ssa.BinOp)
+		if !ok || bo.Op != token.SUB {
+			return
+		}
+		if ld, ok := bo.X.(*ssa.UnOp); ok {
+			if _, isIdx := ld.X.(*ssa.IndexAddr); isIdx {
+				nSub++
+				if !isLenCall(bo.Y) {
+					okSub = false
+				}
+			}
+		}
+	})
+	if nSub == 0 || !okSub {
+		return false, "the consumer does not subtract byte lengths from the widths"
+	}
+	return true, ""
 }
